@@ -755,5 +755,5 @@ def check(repo, rep):
                        'DEFAULT_ENERGY_THRESHOLD, AudioReader.block_dur, io.DEFAULT_*); every key written is read by a consumer and every args_ns read has a dest; -q <-> no PrintWorker; printf / time-format reach '
                        'the PrintWorker, whose line is the template filled with id and formatter(start/end/duration); formatter table: %S "{:.3f}", %I int(seconds*1000), %h%m%s%i zero-padded fields fed by the '
                        'divmod chain 3600000 / 60000 / 1000 in role, leftover % -> TimeFormatError; -j without -O -> ArgumentError -> return 1, normal end -> return 0. '
-                       'NOT decided: stdout for all recordings; int(seconds*1000) float truncation.')
+                       'main(): the parser is given argv, or sys.argv[1:] when argv is None (evaluated), its result goes to make_kwargs, the wait loop ends exactly when one thread is left (condition evaluated for 1..5 threads); -u VALUE reaches split() as int(VALUE) when int() accepts it (evaluated on the paths of make_kwargs, negative indices included); -o/-T reach the region saver in role. The parser table is read from the evaluated add_argument calls (helpers, loops over option tables, partial() expanded). NOT decided: stdout for all recordings; int(seconds*1000) float truncation.')
     rep.assumptions = ['argparse semantics', 'C12 (ids from 1, every detection once, in order) and C05-C08 for what split() returns']
